@@ -40,22 +40,44 @@ theorem readEntityLine_typedef (d : Core2.TypeDef) (hne : d.name ≠ []) :
   have h := takeBody_escapeIdent d.name (Core2.sType ++ Core2.bodyString d.body) hne (sType_identEnd _)
   simp only [typedefLine, Enc.typeName, List.cons_append, List.append_assoc, readEntityLine, h, stripPrefix, TyParse.stripPrefix_append]
 
-theorem stripPrefix_global_constant (x : Bytes) : TyParse.stripPrefix Core2.sGlobal (Core2.sConstant ++ x) = none := by
-  simp [Core2.sGlobal, Core2.sConstant, TyParse.stripPrefix]
+theorem sEqSp_identEnd (x : Bytes) : identEnd (sEqSp ++ x) = true := by
+  simp [sEqSp, identEnd, Enc.inTail, Enc.inHead, isAlpha, isUpper, isLower, isDigit]
 
-theorem readEntityLine_global (useHex : Int → Bool) (g : Core2.Global) (hne : g.name ≠ []) :
-    readEntityLine (globalLine useHex g) =
-      some (.global (Enc.globalName g.name) g.isConst (tyString g.ty ++ [32] ++ Core2.constIdent useHex g.ty g.init)) := by
-  obtain ⟨name, isConst, ty, init⟩ := g
-  simp only at hne
+theorem stripPrefix_global_constant (x : Bytes) : TyParse.stripPrefix sGlobalKw (sConstantKw ++ x) = none := by
+  simp [sGlobalKw, sConstantKw, TyParse.stripPrefix]
+
+/-- the keywords of a global variable are pairwise divergent, and none of them followed by a space starts `global ` or `constant ` -/
+theorem kGLead_diverge : Core3.keysDiverge kGLead = true := by decide +kernel
+theorem kGLead_vs_kw : kGLead.all (fun k => Core3.diverge (k ++ [32]) sGlobalKw && Core3.diverge (k ++ [32]) sConstantKw) = true := by decide +kernel
+
+theorem kGLead_rest (isConst : Bool) (z : Bytes) : ∀ k ∈ kGLead, TyParse.stripPrefix (k ++ [32]) ((if isConst then sConstantKw else sGlobalKw) ++ z) = none := by
+  intro k hk
+  have := List.all_eq_true.mp kGLead_vs_kw k hk
+  simp only [Bool.and_eq_true] at this
   cases isConst
-  · have h := takeBody_nameBody name (Core2.sGlobal ++ (tyString ty ++ [32] ++ Core2.constIdent useHex ty init)) hne (sGlobal_identEnd _)
-    simp only [globalLine, Enc.globalName_eq, List.cons_append, List.append_assoc, readEntityLine, Bool.false_eq_true, if_false, stripPrefix,
-      TyParse.stripPrefix_append] at h ⊢
-    simp only [h, TyParse.stripPrefix_append]
-  · have h := takeBody_nameBody name (Core2.sConstant ++ (tyString ty ++ [32] ++ Core2.constIdent useHex ty init)) hne (sConstant_identEnd _)
-    simp only [globalLine, Enc.globalName_eq, List.cons_append, List.append_assoc, readEntityLine, if_true, stripPrefix] at h ⊢
-    simp only [h, stripPrefix_global_constant, TyParse.stripPrefix_append]
+  · exact Core3.stripPrefix_diverge _ _ _ this.1
+  · exact Core3.stripPrefix_diverge _ _ _ this.2
+
+theorem readEntityLine_global (useHex : Int → Bool) (g : Core2.Global) (hne : g.name ≠ []) (hl : ∀ i ∈ g.lead, i < kGLead.length) :
+    readEntityLine (globalLine useHex g) =
+      some (.global (Enc.globalName g.name) g.isConst (tyString g.ty ++ [32] ++ Core2.constIdent useHex g.ty g.init) g.lead) := by
+  obtain ⟨name, isConst, ty, init, lead⟩ := g
+  simp only at hne hl
+  cases isConst
+  · have h := takeBody_nameBody name (sEqSp ++ (Core3.flagsString kGLead lead ++ (sGlobalKw ++ (tyString ty ++ [32] ++ Core2.constIdent useHex ty init)))) hne (sEqSp_identEnd _)
+    have hf := Core3.readFlags_print kGLead (sGlobalKw ++ (tyString ty ++ [32] ++ Core2.constIdent useHex ty init)) kGLead_diverge
+      (kGLead_rest false _) lead
+      ((Core3.flagsString kGLead lead ++ (sGlobalKw ++ (tyString ty ++ [32] ++ Core2.constIdent useHex ty init))).length + 1) hl (by
+        have := Core3.flagsString_len kGLead lead; simp only [List.length_append] at this ⊢; omega)
+    simp only [globalLine, Enc.globalName_eq, List.cons_append, List.append_assoc, readEntityLine, stripPrefix, Bool.false_eq_true, if_false] at h hf ⊢
+    simp only [h, TyParse.stripPrefix_append, hf]
+  · have h := takeBody_nameBody name (sEqSp ++ (Core3.flagsString kGLead lead ++ (sConstantKw ++ (tyString ty ++ [32] ++ Core2.constIdent useHex ty init)))) hne (sEqSp_identEnd _)
+    have hf := Core3.readFlags_print kGLead (sConstantKw ++ (tyString ty ++ [32] ++ Core2.constIdent useHex ty init)) kGLead_diverge
+      (kGLead_rest true _) lead
+      ((Core3.flagsString kGLead lead ++ (sConstantKw ++ (tyString ty ++ [32] ++ Core2.constIdent useHex ty init))).length + 1) hl (by
+        have := Core3.flagsString_len kGLead lead; simp only [List.length_append] at this ⊢; omega)
+    simp only [globalLine, Enc.globalName_eq, List.cons_append, List.append_assoc, readEntityLine, stripPrefix, if_true] at h hf ⊢
+    simp only [h, TyParse.stripPrefix_append, hf, stripPrefix_global_constant]
 
 /-! ### composable reading -/
 
@@ -312,7 +334,7 @@ theorem good_groups : ∀ (gs : List (List Bytes × Top)), (∀ p ∈ gs, Good p
 
 def typedefTok (d : Core2.TypeDef) : Core2.Line := .typedef (Enc.typeName d.name) (Core2.bodyString d.body)
 def globalTok (useHex : Int → Bool) (g : Core2.Global) : Core2.Line :=
-  .global (Enc.globalName g.name) g.isConst (tyString g.ty ++ [32] ++ Core2.constIdent useHex g.ty g.init)
+  .global (Enc.globalName g.name) g.isConst (tyString g.ty ++ [32] ++ Core2.constIdent useHex g.ty g.init) g.lead
 
 theorem good_typedefs : ∀ (ds : List Core2.TypeDef), (∀ d ∈ ds, d.name ≠ []) → Good (ds.map typedefLine) ⟨ds.map typedefTok, [], []⟩
   | [], _ => good_nil
@@ -324,13 +346,13 @@ theorem good_typedefs : ∀ (ds : List Core2.TypeDef), (∀ d ∈ ds, d.name ≠
     have := good_append _ _ _ _ h1 ih
     simpa [Top.app] using this
 
-theorem good_globals (useHex : Int → Bool) : ∀ (gs : List Core2.Global), (∀ g ∈ gs, g.name ≠ []) →
+theorem good_globals (useHex : Int → Bool) : ∀ (gs : List Core2.Global), (∀ g ∈ gs, g.name ≠ []) → (∀ g ∈ gs, ∀ i ∈ g.lead, i < kGLead.length) →
     Good (gs.map (globalLine useHex)) ⟨gs.map (globalTok useHex), [], []⟩
-  | [], _ => good_nil
-  | g :: gs, h => by
-    have ih := good_globals useHex gs (fun x hx => h x (by simp [hx]))
+  | [], _, _ => good_nil
+  | g :: gs, h, hl => by
+    have ih := good_globals useHex gs (fun x hx => h x (by simp [hx])) (fun x hx => hl x (by simp [hx]))
     have h1 : Good [globalLine useHex g] ⟨[globalTok useHex g], [], []⟩ :=
-      good_entity _ _ 64 _ (by rw [globalLine, Enc.globalName_eq]; rfl) (Or.inr rfl) (readEntityLine_global useHex g (h g (by simp)))
+      good_entity _ _ 64 _ (by rw [globalLine, Enc.globalName_eq]; rfl) (Or.inr rfl) (readEntityLine_global useHex g (h g (by simp)) (hl g (by simp)))
     have := good_append _ _ _ _ h1 ih
     simpa [Top.app] using this
 
@@ -431,7 +453,7 @@ theorem printTok_names (useHex : Int → Bool) (m : Core2.Mod) (h : ∀ d ∈ m.
   unfold Core2.printTok
   rw [List.filterMap_append]
   have h2 : (m.globals.map (fun g => Core2.Line.global (Enc.globalName g.name) g.isConst
-      (tyString g.ty ++ [32] ++ Core2.constIdent useHex g.ty g.init))).filterMap lineName = [] := by
+      (tyString g.ty ++ [32] ++ Core2.constIdent useHex g.ty g.init) g.lead)).filterMap lineName = [] := by
     apply List.filterMap_eq_nil_iff.mpr
     intro l hl; simp only [List.mem_map] at hl; obtain ⟨g, _, rfl⟩ := hl; rfl
   rw [h2, List.append_nil, typedef_names m.typedefs h]
@@ -441,8 +463,13 @@ theorem printTok_names (useHex : Int → Bool) (m : Core2.Mod) (h : ∀ d ∈ m.
 theorem parse_print (useHex : Int → Bool) (m : Module)
     (h2 : Core2.WF ⟨m.typedefs, m.globals⟩) (hs : Core2.sortDefs m.typedefs = m.typedefs)
     (h3 : ∀ f ∈ m.funcs, Core3.wfIn (genvOf m.globals m.funcs) f = true) (h3m : ∀ f ∈ m.funcs, Core3.mdWF useHex f = true)
-    (hm : Meta.wf m.md = true) (hx : crossOK m = true) :
+    (hm : Meta.wf m.md = true) (hx : crossOK m = true) (hgl : gleadsOK m.globals = true) :
     parse (printModule useHex m) = some m := by
+  have hgl' : ∀ g ∈ m.globals, ∀ i ∈ g.lead, i < kGLead.length := by
+    intro g hg
+    have := List.all_eq_true.mp hgl g hg
+    simp only [gleadOK, Bool.and_eq_true, List.all_eq_true, decide_eq_true_eq] at this
+    exact this.1
   have hmn : ∀ n ∈ m.md.named, n.name ≠ [] := by
     have h' := hm
     simp only [Meta.wf, Bool.and_eq_true, List.all_eq_true, Bool.not_eq_true', List.isEmpty_eq_false_iff] at h'
@@ -462,7 +489,7 @@ theorem parse_print (useHex : Int → Bool) (m : Module)
     · exact ⟨good_typedefs _ (fun d hd => (h2.tnames d hd).1), fun e => by
         have : m.typedefs = [] := by simpa using e
         simp [this, Top.empty]⟩
-    · exact ⟨good_globals useHex _ (fun g hg => h2.gnames g hg), fun e => by
+    · exact ⟨good_globals useHex _ (fun g hg => h2.gnames g hg) hgl', fun e => by
         have : m.globals = [] := by simpa using e
         simp [this, Top.empty]⟩
     · exact ⟨good_funcs useHex _ (fun f hf => ⟨hsyn f hf, h3m f hf⟩), fun e => by
@@ -482,7 +509,7 @@ theorem parse_print (useHex : Int → Bool) (m : Module)
       m.md.named.map Meta.namedString ++ m.md.defs.map (Meta.defString useHex)⟩ := by
     have e1 : m.typedefs.map typedefTok = m.typedefs.map (fun d => Core2.Line.typedef (Enc.typeName d.name) (Core2.bodyString d.body)) := rfl
     have e2 : m.globals.map (globalTok useHex) = m.globals.map (fun g => Core2.Line.global (Enc.globalName g.name) g.isConst
-        (tyString g.ty ++ [32] ++ Core2.constIdent useHex g.ty g.init)) := rfl
+        (tyString g.ty ++ [32] ++ Core2.constIdent useHex g.ty g.init) g.lead) := rfl
     simp only [foldTops, groups, Top.app, Top.empty, Core2.printTok, hmf, e1, e2, List.append_nil, List.nil_append]
   have hread : readTop ((printModule useHex m).length + 1) (printModule useHex m) = some (foldTops groups) := by
     have := hgood
@@ -497,6 +524,6 @@ theorem parse_print (useHex : Int → Bool) (m : Module)
   simp only [crossOK, Bool.and_eq_true, Bool.not_eq_true'] at hx
   unfold parse
   rw [hread, hT]
-  simp only [Option.bind, translate, hmt, hc2, Core2.canon, hs, mapM'_translate _ m.funcs h3, hrl, htr, Core2.canon, hs, hx.1.1, Bool.false_eq_true, if_false, hx.1.2, hx.2, Bool.and_self, if_true]
+  simp only [Option.bind, translate, hmt, hc2, Core2.canon, hs, mapM'_translate _ m.funcs h3, hrl, htr, Core2.canon, hs, hx.1.1, Bool.false_eq_true, if_false, hx.1.2, hx.2, Bool.and_self, if_true, hgl, Bool.not_true]
 
 end Llir.Whole
